@@ -35,6 +35,10 @@ type c16Case struct {
 	// FailAt: the wildcard's address / route source fails during this build (0-based;
 	// absent = never). The earlier builds succeeded.
 	FailAt *int `json:"source_fails_at_build,omitempty"`
+	// AbsentAt: during this build the interface has no (usable) address in the /64 / the
+	// loopback route is not there (it appears later, or goes away and comes back); the
+	// deadline of a deprecated wildcard stanza does not depend on when a network was seen.
+	AbsentAt *int `json:"network_absent_at_build,omitempty"`
 }
 
 var c16Epochs = []time.Time{
@@ -119,6 +123,7 @@ func c16Check(c c16Case) [][2]string {
 	}
 	build := 0
 	srcFails := func() bool { return c.FailAt != nil && *c.FailAt == build }
+	absent := func() bool { return c.AbsentAt != nil && *c.AbsentAt == build }
 	var plug plugin.Plugin
 	for _, p := range cfg.Interfaces[0].Plugins {
 		switch p := p.(type) {
@@ -130,6 +135,9 @@ func c16Check(c c16Case) [][2]string {
 				}
 				// (the kernel has deprecated the address: that is a property of the address,
 				// not of the stanza - a non-deprecated stanza keeps its constants)
+				if absent() {
+					return []system.IP{{Address: mustPrefix("2001:db8::1/64"), Tentative: true}, {Address: mustPrefix("fe80::1/64")}}, nil
+				}
 				return []system.IP{{Address: mustPrefix("2001:db8::1/64"), Deprecated: true}}, nil
 			}
 			plug = p
@@ -138,6 +146,9 @@ func c16Check(c c16Case) [][2]string {
 			p.Routes = func() ([]system.Route, error) {
 				if srcFails() {
 					return nil, fmt.Errorf("verif: netlink dump interrupted")
+				}
+				if absent() {
+					return []system.Route{{Prefix: mustPrefix("::1/128")}}, nil
 				}
 				return []system.Route{{Prefix: mustPrefix("2001:db8:ffff::/48")}}, nil
 			}
@@ -171,6 +182,9 @@ func c16Check(c c16Case) [][2]string {
 		}
 		if err != nil && srcFails() {
 			continue // no RA is generated when the source fails: nothing advertised, nothing to judge
+		}
+		if err == nil && absent() && len(ra.Options) == 0 {
+			continue // nothing to advertise for the wildcard at this moment
 		}
 		if err != nil || len(ra.Options) != 1 {
 			bad("C16:apply", "Apply: err=%v options=%d", err, len(ra.Options))
@@ -233,7 +247,7 @@ func c16Check(c c16Case) [][2]string {
 func TestVerifC16(t *testing.T) {
 	r := ev.Begin("C16", "enum")
 	defer r.End(t)
-	r.Rule = "cases = 2 epochs x 4 (valid,preferred) pairs x {static prefix, wildcard prefix, static route, wildcard route} x {deprecated, not} x all non-decreasing sequences (length<=L) over 10 instants around each deadline (before the epoch, at, 1ns before/after) x {one, two} clock readings per RA x (wildcards) the address / route source failing during build k for every k; documents parsed by the real config.Parse; non-trivial = deprecated and some reading within [0, 10*valid]; distinct = distinct case"
+	r.Rule = "cases = 2 epochs x 4 (valid,preferred) pairs x {static prefix, wildcard prefix, static route, wildcard route} x {deprecated, not} x all non-decreasing sequences (length<=L) over 10 instants around each deadline (before the epoch, at, 1ns before/after) x {one, two} clock readings per RA x (wildcards) the address / route source failing during build k, and the network being absent from the listing during build k (it appears later / comes back), for every k; documents parsed by the real config.Parse; non-trivial = deprecated and some reading within [0, 10*valid]; distinct = distinct case"
 	r.Assumptions = []string{"clock injected through Prefix.TimeNow / Route.TimeNow (Prepare installs time.Now in production)"}
 
 	if r.Replay != nil {
@@ -288,6 +302,14 @@ func TestVerifC16(t *testing.T) {
 								r.Sample(c)
 								for _, v := range c16Check(c) {
 									r.Violation(v[0], v[1], c)
+								}
+								if fa != nil {
+									// ... and the same build finding the network absent instead.
+									c.FailAt, c.AbsentAt = nil, fa
+									r.Case(ev.JSON(c), dep)
+									for _, v := range c16Check(c) {
+										r.Violation(v[0], v[1], c)
+									}
 								}
 							}
 						}
